@@ -27,6 +27,8 @@ structure DNode (nd : Nd) : Prop where
   nh : nd.kind.hasHelper = false → nd.helperDone = true
   ih : isInflux nd.kind = true → nd.helperDone = true → nd.stopping = true
   nl : isLoop nd.kind = false
+  nu : isUdf nd.kind = false
+  fd : nd.fwdDead = false
 
 /-- Producer/consumer facts of an edge. -/
 def DPair (nd c : Nd) : Prop := (nd.done = true → c.inClosed = true ∨ c.inAborted = true) ∧ (c.inClosed = true → nd.done = true)
@@ -34,7 +36,7 @@ def DPair (nd c : Nd) : Prop := (nd.done = true → c.inClosed = true ∨ c.inAb
 set_option maxHeartbeats 4000000 in
 theorem nodeStep_DNode {env a nd child r} (h : nodeStep env a nd child = some r) (hd : DNode nd)
     (hleak : env.alertLeak = false) : DNode r.nd := by
-  obtain ⟨h1, ab, fa, dn, fh, al, ah, ad, as, nh, ih, nl⟩ := hd
+  obtain ⟨h1, ab, fa, dn, fh, al, ah, ad, as, nh, ih, nl, nu, fd⟩ := hd
   have hstop : isAlert nd.kind = true → nd.failed = false → (0 < nd.inq ∨ nd.hand = 1) → nd.stopping = false := by
     intro a b c
     cases hs : nd.stopping with
@@ -42,7 +44,7 @@ theorem nodeStep_DNode {env a nd child r} (h : nodeStep env a nd child = some r)
     | true => have := as a hs b; omega
   nstep h
   all_goals (first
-    | (exfalso; simp_all [isLoop]; done)
+    | (exfalso; simp_all [isLoop, isUdf]; done)
     | (constructor <;> simp_all [isAlert, isInflux, isUdf, isLoop, Kind.hasHelper, exitOk, exitFailedOk] <;> (try omega) <;>
         (try (cases hs : nd.stopping <;> simp_all <;> done)) <;> (try grind) <;>
         (cases hk : nd.kind <;> simp_all [isAlert, isInflux, isUdf, isLoop, Kind.hasHelper] <;> (first | omega | grind))))
